@@ -244,7 +244,7 @@ Plan minimise(const Plan &start, const std::string &prop, const std::string &cla
 
 // ---------------------------------------------------------------- workers
 struct Slot { volatile uint64_t batch, index, done; };
-struct Shared { volatile int stop; volatile int fails; Slot slots[64]; };
+struct Shared { volatile int stop; volatile int fails; volatile int fails_other; Slot slots[64]; };
 
 static void worker_main(const std::vector<Batch> &batches, const std::string &prop, uint64_t seed, int tier, int w, int J, uint64_t b0, uint64_t i0,
                         Shared *sh, const std::string &dir, int gen) {
@@ -273,7 +273,14 @@ static void worker_main(const std::vector<Batch> &batches, const std::string &pr
             sh->slots[w].done++;
             if (!r.ok() && ff) {
                 fprintf(ff, "%llu %llu %s %s\n", (unsigned long long)b, (unsigned long long)i, r.clause.c_str(), hexs(r.detail).c_str()); fflush(ff);
-                if (__sync_add_and_fetch(&sh->fails, 1) >= 48) sh->stop = 1;      // enough material: the check has failed, do not grind through the rest
+                // enough material: the check has failed, do not grind through the rest. For C07 / C11 a failure whose clause was not
+                // raised by one of the property's own operations may be attributed away (navigation defect), so keep looking for
+                // property-specific ones a good while longer
+                bool specific = true;
+                if (prop == "C07") specific = r.clause.find(".lookup.") != std::string::npos || r.clause.find(".ensure.") != std::string::npos;
+                else if (prop == "C11") specific = r.clause.find(".raw.") != std::string::npos || r.clause.find(".towriter.") != std::string::npos;
+                if (specific) { if (__sync_add_and_fetch(&sh->fails, 1) >= 48) sh->stop = 1; }
+                else if (__sync_add_and_fetch(&sh->fails_other, 1) >= 4000) sh->stop = 1;
             }
             if (++since >= 4000) { agg.save(aggpath); since = 0; }
         }
@@ -343,7 +350,7 @@ int run_check(const CheckSpec &spec, const RunOptions &opt) {
         bool hung = WIFEXITED(st) && WEXITSTATUS(st) == 78;
         crashes.push_back(Agg::Fail{b, i, hung ? "hang" : "crash", ""});
         if (hung) hangs++;
-        if (crashes.size() >= 6 || hangs >= 2) sh->stop = 1;
+        if (crashes.size() >= 24 || hangs >= 2) sh->stop = 1;
         gen[(size_t)w]++;
         // resume after the run that killed the worker
         uint64_t nb = b, ni = i + (uint64_t)J;
@@ -357,7 +364,15 @@ int run_check(const CheckSpec &spec, const RunOptions &opt) {
         while (std::getline(ff, line)) { std::istringstream is(line); Agg::Fail f; std::string d; is >> f.batch >> f.index >> f.clause >> d; f.detail = unhexs(d); total.fails.push_back(f); }
     }
     for (auto &c : crashes) total.fails.push_back(c);
-    std::sort(total.fails.begin(), total.fails.end(), [](const Agg::Fail &a, const Agg::Fail &b) { return a.batch != b.batch ? a.batch < b.batch : a.index < b.index; });
+    auto specific = [&](const std::string &cl) {      // clauses raised by the operations the property is about come first
+        if (prop == "C07") return cl.find(".lookup.") != std::string::npos || cl.find(".ensure.") != std::string::npos;
+        if (prop == "C11") return cl.find(".raw.") != std::string::npos || cl.find(".towriter.") != std::string::npos;
+        return false;
+    };
+    std::sort(total.fails.begin(), total.fails.end(), [&](const Agg::Fail &a, const Agg::Fail &b) {
+        bool sa = specific(a.clause), sb = specific(b.clause);
+        if (sa != sb) return sa;
+        return a.batch != b.batch ? a.batch < b.batch : a.index < b.index; });
     double t_run = now_s() - t0;
 
     // ---- confirm, minimise, re-confirm (first failure of each distinct clause, in index order)
@@ -407,7 +422,7 @@ int run_check(const CheckSpec &spec, const RunOptions &opt) {
         }
         Finding fi; fi.plan = m; fi.clause = clause; fi.detail = c3.detail; fi.stderr_text = c3.stderr_text;
         fi.plan.expect_clause = clause; fi.plan.expect_hash = c3.hash;
-        if (e->owned && !e->owned(m)) { fi.info = true; fi.info_reason = "the minimised history no longer contains an operation this property is about (navigation defect: see C06)"; }
+        if (e->owned && !e->owned(m, clause)) { fi.info = true; fi.info_reason = "the minimised history no longer contains an operation this property is about (navigation defect: see C06)"; }
         fi.sig = fmt("%s|%s|%s|", clause.c_str(), m.engine.c_str(), shape_of(m).c_str());
         for (size_t i = 0; i < m.ops.size(); i++) { if (i) fi.sig += ","; fi.sig += OP_NAMES[m.ops[i].code]; }
         if (!m.ops2.empty()) { fi.sig += ";"; for (size_t i = 0; i < m.ops2.size(); i++) { if (i) fi.sig += ","; fi.sig += OP_NAMES[m.ops2[i].code]; } }
